@@ -465,11 +465,19 @@ def _yield_children(rec, rr):
                     # was relocated to; we do that by following the child_link,
                     # then going up to the parent and finding the entry that
                     # links to the same one as this one.
-                    cl_parent = child.rock_ridge.cl_to_moved_dr.parent
+                    moved = child.rock_ridge.cl_to_moved_dr
+                    cl_parent = moved.parent
                     for cl_child in cl_parent.children:
-                        if cl_child.rock_ridge is not None and cl_child.rock_ridge.name() == child.rock_ridge.name():
+                        # Relocated directories may have the same name, so
+                        # the one that was linked is preferred.
+                        if cl_child is moved:
                             child = cl_child
                             break
+                    else:
+                        for cl_child in cl_parent.children:
+                            if cl_child.rock_ridge is not None and cl_child.rock_ridge.name() == child.rock_ridge.name():
+                                child = cl_child
+                                break
                     # If we didn't find the relocated entry in the parent of the
                     # moved entry, weird; just yield the one we would have anyway.
 
